@@ -174,6 +174,8 @@ pub struct SimConfig {
     pub strict_is_open: bool,
     /// the inner service polls the handed-out connection for readiness before sending
     pub exec_polls_ready: bool,
+    /// the protocol only yields HTTP/1.1 connections
+    pub h1_only_protocol: bool,
     pub ev_cancel: bool,
     pub ev_dial_fail: bool,
     pub ev_close: bool,
@@ -207,6 +209,7 @@ impl SimConfig {
             split_handshake: false,
             strict_is_open: true,
             exec_polls_ready: false,
+            h1_only_protocol: false,
             ev_cancel: true,
             ev_dial_fail: true,
             ev_close: true,
@@ -225,7 +228,7 @@ impl SimConfig {
             self.name, self.max_requests, self.origins, self.allow_h1, self.allow_h2, self.continue_after_preemption,
             self.max_idle_per_host, self.idle_timeout, self.split_handshake, self.strict_is_open, self.ev_cancel,
             self.ev_dial_fail, self.ev_close, self.ev_upgrade, self.max_ticks, if self.burst { " burst" } else { "" }
-        ) + if self.exec_polls_ready { " exec-polls-ready" } else { "" } + if self.fine_ticks { " fine-ticks" } else { "" } + &(if self.prelude.is_empty() { String::new() } else { format!(" starting-after=[{}]", self.prelude.join(" ")) }) + if self.macro_finish { " macro-finish" } else { "" } + &self.max_depth.map(|d| format!(" depth<={d}")).unwrap_or_else(|| " to-fixpoint".into())
+        ) + if self.exec_polls_ready { " exec-polls-ready" } else { "" } + if self.h1_only_protocol { " h1-only-protocol" } else { "" } + if self.fine_ticks { " fine-ticks" } else { "" } + &(if self.prelude.is_empty() { String::new() } else { format!(" starting-after=[{}]", self.prelude.join(" ")) }) + if self.macro_finish { " macro-finish" } else { "" } + &self.max_depth.map(|d| format!(" depth<={d}")).unwrap_or_else(|| " to-fixpoint".into())
     }
 }
 
@@ -298,6 +301,7 @@ impl Sim {
             w.split_handshake = cfg.split_handshake;
             w.strict_is_open = cfg.strict_is_open;
             w.exec_polls_ready = cfg.exec_polls_ready;
+            w.h1_only_protocol = cfg.h1_only_protocol;
         });
         hooks::capture_spawns(true);
         let _ = hooks::take_spawned();
